@@ -7,6 +7,7 @@ CODES = {
     10: "C01: a live frame is not rectangular / a column is stored under another name",
     11: "C01: Nrows() disagrees with the common column length",
     12: "C01: cells that shared a row no longer share one",
+    13: "C01: a frame the operation was not applied to changed and no longer consists of whole rows of its former self",
     20: "C02: a frame other than the one being edited changed",
     30: "C20: the call panicked",
     31: "C20: a call that returned an error changed a frame",
@@ -47,7 +48,7 @@ HIST_RULE = ("Random interleavings of all frame operations (derive/edit/observe)
 
 PROPS = {
     "HIST": {"plans": ["HIST"], "codes": [1, 2, 10, 11, 12, 20, 30, 31, 40, 41], "rule": HIST_RULE},
-    "C01": {"plans": ["C01"], "codes": [10, 11, 12],
+    "C01": {"plans": ["C01"], "codes": [10, 11, 12, 13],
             "rule": "C01 plan: random histories of 1-12 operations over 1-3 live frames, weighted towards AppendRow with unseen column names, "
                     "repeated Loc/Iloc labels and repeated CSV header names; after every successful step every live frame must be rectangular, "
                     "stored under its own names, Nrows() must agree, and surviving rows must be whole rows of the source."},
